@@ -1,0 +1,1 @@
+//! verif-hooks: ser area (read-only accessors; see mod.rs)
